@@ -132,8 +132,10 @@ def _accesses(fn, field, mode):
     return out
 
 
-def rule_lockset(ctx):
+def rule_lockset(ctx, only=None):
     for cq, lock, fields, ctor_phase, mode in GUARDED:
+        if only and cq != only:
+            continue
         R = "C18.LOCKSET-" + {"sessioncache:SessionCache": "CACHE",
                               "utils.python_rsakey:Python_RSAKey": "RSA",
                               "basedb:BaseDB": "DB"}[cq]
